@@ -74,6 +74,8 @@ stats_cases = st.fixed_dictionaries({
                                                        min_size=1, max_size=2)),
     "first": st.floats(min_value=0, max_value=1e6, allow_nan=False, width=32),
     "periodic": st.booleans(),
+    # in which of the n intervals each job's process is alive (jobs start and end at different times)
+    "presence": st.lists(st.lists(st.booleans(), min_size=8, max_size=8), min_size=2, max_size=2),
 })
 
 RESULT = st.tuples(st.sampled_from(["finished", "finished", "canceled"]), st.sampled_from([0, 0, 1, 2, 255]))
@@ -212,8 +214,8 @@ class FakeMonitor:
     def get_process_stats(self, pid, include_children=True, recurse_children=False):
         sc = FakeMonitor.script["process"]
         name, i = pid
-        if name not in sc:
-            return None, []
+        if name not in sc or i is None:
+            return None, []  # the process is not alive in this interval
         return {stat: seq[i] for stat, seq in sc[name].items()}, []
 
     def clear_stale_processes(self, cur):
@@ -246,8 +248,15 @@ def run_stats(case, res):
         stats = ResourceMonitorStats(cpu=True, memory=True, disk=case["with_disk"], network=False, process=case["process"] is not None)
         os.makedirs(os.path.join(out, "stats"))
         agg = rm.ResourceMonitorAggregator("resource_monitor_batch_1_0", stats)
+        procs = sorted(case["process"] or {})
+        alive = {}
+        for pi, pname in enumerate(procs):
+            mask = list(case["presence"][pi % 2][:n])
+            if not any(mask):
+                mask[0] = True
+            alive[pname] = mask
         for i in range(n):
-            agg.update_resource_stats(ids={p: (p, i) for p in (case["process"] or {})})
+            agg.update_resource_stats(ids={p: (p, i if alive[p][i] else None) for p in procs})
         agg.finalize(out)
         data = json.load(open(os.path.join(out, "stats", "resource_monitor_batch_1_0_resource_stats.json")))
         by_type = {(d["type"], d.get("name")): d for d in data}
@@ -283,10 +292,13 @@ def run_stats(case, res):
             if entry is None:
                 v.append(D.viol("C20:process-statistic-missing", f"no entry for process {pname}"))
                 continue
-            if entry.get("samples") != n:
-                v.append(D.viol("C20:process-sample-count", f"{pname}: samples={entry.get('samples')} expected {n}"))
+            taken = [i for i in range(n) if alive[pname][i]]
+            if entry.get("samples") != len(taken):
+                v.append(D.viol("C20:process-sample-count", f"{pname}: samples={entry.get('samples')} expected {len(taken)}"))
+            if len(taken) < n:
+                res["classes"].append("process_not_alive_in_every_interval")
             for stat, seq in script["process"][pname].items():
-                check(f"process {pname}", entry, stat, seq)
+                check(f"process {pname} (alive in intervals {taken} of {n})", entry, stat, [seq[i] for i in taken])
         # periodic path
         if case["periodic"]:
             from jade.events import EventsSummary
